@@ -1073,7 +1073,7 @@ func (e *Engine) eval(fr *Frame, ins ssa.Value) Value {
 	case *ssa.MakeSlice:
 		n := e.allocLen(e.get(fr, ins.Len), ins.Len.Type())
 		c := e.allocLen(e.get(fr, ins.Cap), ins.Cap.Type())
-		if n < 0 || c < n {
+		if n < 0 || c < n || c > 1<<47 { // above the runtime's maxAlloc whatever the element size
 			e.goPanicStr("makeslice: len out of range")
 		}
 		if c > 1<<24 {
